@@ -48,6 +48,9 @@ def run(chk):
     r2_stable_sorting(chk, repo)
     r3_predicates(chk, repo)
     r4_break(chk, repo)
+    r5_inputs_untouched(chk, repo)
+    from .c18 import r7_stale_locals
+    r7_stale_locals(chk, repo, "C17.R6", [GENERAL])
 
 
 def _sorted_check_try(node, pname):
@@ -310,8 +313,55 @@ def r4_break(chk, repo):
     ok = any(isinstance(st, ast.Assign) and isinstance(st.value, ast.Call) and call_name(st.value) == "_find_break_i" for st in walk_body(fb.node))
     chk.check(ok, R, fb, None, "from_break does not use _find_break_i", site_text="from_break: break index from _find_break_i", nontrivial=False)
 
+# ------------------------------------------------------------------------------------ R5
+def r5_inputs_untouched(chk, repo):
+    chk.describe("C17.R5", "the public interval functions do not write into the arrays they are given (neither directly nor through a view such as x['channel'] taken without .copy())")
+    R = "C17.R5"
+    n = 0
+    for f in repo.module(GENERAL).functions.values():
+        if f.parent_func is not None or f.name.startswith("_"):
+            continue
+        params = {p for p in f.params if p not in ("result", "_result_buffer", "result_dtype")}
+        views = {}
+        for st in walk_body(f.node):
+            if isinstance(st, ast.Assign) and len(st.targets) == 1 and isinstance(st.targets[0], ast.Name):
+                v = st.value
+                root = v
+                while isinstance(root, (ast.Subscript, ast.Attribute)):
+                    root = root.value
+                if isinstance(v, (ast.Subscript, ast.Attribute, ast.Name)) and isinstance(root, ast.Name) and (root.id in params or root.id in views) and v is not root:
+                    views[st.targets[0].id] = st
+                elif isinstance(v, ast.Name) and v.id in params:
+                    views[st.targets[0].id] = st
+        for st in walk_body(f.node):
+            tg = None
+            if isinstance(st, ast.AugAssign):
+                tg = st.target
+            elif isinstance(st, ast.Assign) and isinstance(st.targets[0], ast.Subscript):
+                tg = st.targets[0]
+            if tg is None:
+                continue
+            root = tg
+            while isinstance(root, (ast.Subscript, ast.Attribute)):
+                root = root.value
+            if not isinstance(root, ast.Name):
+                continue
+            direct = root.id in params and root is not tg
+            through_view = False
+            if root.id in views:
+                from ..rules import reaching
+                cfgf = cfg_of(f)
+                nd = cfgf.node_of(st)
+                through_view = any(d[2] is views[root.id] for d in reaching(f).defs_of(nd, root.id))
+            if direct or through_view:
+                n += 1
+                chk.fail(R, f, st, f"`{head(st, 70)}` writes into the caller's array" + (f" (`{root.id}` is a view: `{head(views[root.id], 50)}`)" if through_view and not direct else ""), site={"function": f.qualname, "target": norm(tg)[:50]})
+        chk.ok(R, f"{f.qualname}: inputs are not written")
+
 
 WITNESSES = [
+    W("sort_by_time shifts the caller's channel numbers", "C17.R5", GENERAL,
+      "channel = x[\"channel\"].copy()", "channel = x[\"channel\"]"),
     W("gap of exactly safe_break is not a break", "C17.R4", GENERAL,
       "if d[\"time\"] >= latest_end_seen + safe_break:", "if d[\"time\"] > latest_end_seen + safe_break:"),
     W("break measured against the previous row only", "C17.R4", GENERAL,
